@@ -343,6 +343,7 @@ type Models struct {
 	LastUpdate   map[string]sdk.Msg
 	RejectedUpd  []sdk.Msg // UpdateParams messages that were executed by gov and failed / proposal failed
 	Settles      []SettleRec // releases/refunds the model computed for the last applied transaction
+	Grants       map[string]bool // authz generic grants: granter|grantee|msg type url
 }
 
 // SettleRec is what the model says one stream operation paid out.
@@ -367,7 +368,7 @@ func ratOfDec(s string) *big.Rat {
 
 func NewModels(w *World) *Models {
 	k := &w.T.Knobs
-	m := &Models{govAddr: ModuleAddr(govtypes.ModuleName).String(), ParamChanged: map[string]int{}, LastUpdate: map[string]sdk.Msg{}}
+	m := &Models{govAddr: ModuleAddr(govtypes.ModuleName).String(), ParamChanged: map[string]int{}, LastUpdate: map[string]sdk.Msg{}, Grants: map[string]bool{}}
 	m.Ent = &EntModel{Denom: k.Ent.Denom, MinAccepts: k.Ent.MinAccepts, Limit: k.Ent.Limit, Whitelist: map[string]bool{}, Orders: map[uint64]*Order{}, NextID: k.StartPO, Completed: map[string]*big.Int{}}
 	m.Ent.setSigners(k.signersString(w.Actors))
 	for _, wl := range k.Whitelist {
@@ -595,6 +596,16 @@ func (m *Models) Expect(msg sdk.Msg) Expectation {
 func (m *Models) Apply(msg sdk.Msg, now time.Time, blk int) {
 	unix := uint64(now.Unix())
 	switch x := msg.(type) {
+	case *authz.MsgGrant:
+		if x.Grant.Authorization != nil {
+			var a authz.Authorization
+			if ga, ok := x.Grant.Authorization.GetCachedValue().(authz.Authorization); ok {
+				a = ga
+			}
+			if a != nil {
+				m.Grants[x.Granter+"|"+x.Grantee+"|"+a.MsgTypeURL()] = true
+			}
+		}
 	case *enttypes.MsgUndPurchaseOrder:
 		id := m.Ent.NextID
 		m.Ent.NextID++
